@@ -29,7 +29,7 @@ Alphabet ==
        { Op("New", 0, i, "", V(0), "", NoDef, FALSE) : i \in {"soft", "wrap"} }
   \cup { NewOf(i, "rta", TAttrsOnly) : i \in {"soft", "wrap"} } \cup { NewOf(i, "rtr", TRelsOnly) : i \in {"soft", "wrap"} }
   \cup { Op("Set", h, "", p[1], p[2], "", NoDef, FALSE) : h \in H,
-            p \in { <<"s", V(1)>>, <<"s", V(2)>>, <<"n", V(1)>>, <<"n", V(2)>>, <<"n", NilV>>, <<"b", V(1)>>, <<"b", V(2)>>,
+            p \in { <<"s", V(1)>>, <<"s", V(2)>>, <<"n", V(0)>>, <<"n", V(1)>>, <<"n", V(2)>>, <<"n", NilV>>, <<"b", V(1)>>, <<"b", V(2)>>,
                     <<"q", V(1)>>, <<"q", NilV>>, <<"o", Ids(<<"a">>)>>, <<"o", Ids(<<>>)>>,
                     <<"m", Ids(<<"b", "a">>)>>, <<"m", Ids(<<"c", "b", "a">>)>>, <<"m", Ids(<<>>)>>,
                     <<"m", Ids(<<"a", "b", "a">>)>> } }
@@ -91,6 +91,7 @@ E0 == [impl |-> "soft", tname |-> "rt", fields |-> TFields, id |-> "i1", vals |-
 Rename(e, f, g) == [e EXCEPT !.fields = [x \in (DOMAIN e.fields \ {f}) \cup {g} |-> IF x = g THEN e.fields[f] ELSE e.fields[x]],
                              !.vals   = [x \in (DOMAIN e.vals \ {f}) \cup {g} |-> IF x = g THEN e.vals[f] ELSE e.vals[x]]]
 Rekind(e, f, k, nl) == [e EXCEPT !.fields[f].k = k, !.fields[f].null = nl]
+Recard(e, f, one, ids) == [e EXCEPT !.fields[f].to1 = one, !.vals[f] = Ids(ids)]
 AltVal(e, f) == LET d == e.fields[f] v == e.vals[f] IN
     IF d.kind = "attr" THEN (IF v.nil \/ v.r # 2 THEN V(2) ELSE V(1))
     ELSE IF d.to1 THEN (IF v.ids = <<"b">> THEN Ids(<<"a">>) ELSE Ids(<<"b">>))
@@ -106,6 +107,8 @@ Variants(e) ==
   \* the same attribute name with another kind: a zero of another width prints the same
   \cup { Rekind([e EXCEPT !.vals["n"] = V(0)], "n", k, nl) : k \in {"int", "int64", "uint8"}, nl \in BOOLEAN }
   \cup { Rekind(e, "s", "int", FALSE) }
+  \* the same relationship name with the other cardinality, empty or holding one id
+  \cup { Recard(e, "o", FALSE, ids) : ids \in {<<>>, <<"a">>} } \cup { Recard(e, "m", TRUE, ids) : ids \in {<<>>, <<"a">>} }
 EqPairs == { <<a, b>> \in (Variants(E1) \cup Variants(E0)) \X (Variants(E1) \cup Variants(E0)) : TRUE }
 EmitEq == PrintT(<<"EQ", ToJson(SetToSeq(EqPairs))>>)
 
